@@ -3,7 +3,9 @@
 Every generated case carries the output the property's own words predict for it (computed in text_gen from
 the payload / the wrap lines, never from the model); the ORACLE compares it with emmet.expand.  The same
 cases (plus a stream of inputs outside the statement's domain) run through the extracted Coq model and are
-compared on every output.text / output.field callback invocation (text chunk, offset, line, column)."""
+compared on every output.text / output.field callback invocation (text chunk, offset, line, column).
+Runs of text parts on one unit (gen_text_runs) go the same way; user `output.text` hooks (hook_stream) are judged
+by the oracle only (the model has the identity hook)."""
 import glob
 import itertools
 import json
@@ -612,6 +614,277 @@ def replay_nested(rp):
     return 1 if c.violations else 0
 
 
+# ---------------------------------------------------------------- runs of text parts on one unit (`p{}{b}`, `p{a}.c{b}{c}`)
+# The grammar gives a unit (name, attributes, text, repeater in any order) ONE text: a further `{...}` written directly
+# after it is a text of its own -- an anonymous text node that FOLLOWS the unit as its sibling (what `p{a}+{b}` writes
+# with the operator).  The statement's clause "text written in `{...}` becomes the content of ITS element character for
+# character" therefore fixes the output of a run `name{T1}{T2}{T3}` whatever the payloads are -- in particular when one
+# of them is EMPTY (`{}`), only white space, or a line break: `<name>T1</name>T2T3`.  Attribute parts written between
+# the texts still belong to the named unit.
+RUN_ATTRS = [('.c', ' class="c"'), ('#i', ' id="i"'), ('[a=b]', ' a="b"'), ('[k="v w"]', ' k="v w"')]
+RUN_EMPTY_FIRST = True       # runs whose first / middle / last text is the empty `{}` (off: only non-empty payloads)
+
+
+def run_payload(rng, breaks=True):
+    k = rng.random()
+    if k < (0.4 if RUN_EMPTY_FIRST else 0.0):
+        return ''
+    if k < 0.5:
+        return rng.choice([' ', '\t', '  ', '\xa0'] + (['\n'] if breaks else []))
+    return g.payload_text(rng, rng.choice([1, 1, 2, 3, 5, 8]), breaks and rng.random() < 0.1) or 'x'
+
+
+def tpiece(v):
+    return ['T', v] if v else ''
+
+
+def text_run(rng, name, n_texts, breaks=True, ph=False, star_at=None):
+    """One named unit carrying attribute parts and n_texts text parts.  Returns (abbr, open tag, [payloads as written], what follows `$#` in the first text).
+    star_at: index of the part after which the implicit repeater `*` is written (0 = directly after the name), only
+    positions before the second text (after it the repeater would belong to the text node)."""
+    k = rng.randint(0, len(RUN_ATTRS))
+    attrs = sorted(rng.sample(range(len(RUN_ATTRS)), k))
+    cut = rng.randint(0, len(attrs))
+    if n_texts == 1 and cut == len(attrs):
+        # a single text: only of interest here with attribute parts AFTER the (possibly empty) text
+        attrs = attrs or [rng.randrange(len(RUN_ATTRS))]
+        cut = rng.randint(0, len(attrs) - 1)
+    texts = [run_payload(rng, breaks) for _ in range(n_texts)]
+    written = list(texts)
+    suffix = rng.choice(['', '', '!', ' ']) if ph else ''
+    if ph:
+        written[0] = texts[0] + '$#' + suffix
+    parts = [RUN_ATTRS[i][0] for i in attrs[:cut]] + ['{%s}' % written[0]] + [RUN_ATTRS[i][0] for i in attrs[cut:]]
+    first_len = len(parts)
+    if star_at is not None:
+        parts.insert(min(star_at, first_len), '*')
+    parts += ['{%s}' % t for t in written[1:]]
+    return name + ''.join(parts), '<' + name + ''.join(RUN_ATTRS[i][1] for i in attrs) + '>', texts, suffix
+
+
+def gen_text_runs(ctx, n):
+    rng = ctx.rng
+    out = []
+    # every combination of empty / blank / plain first and second text, with and without attribute parts in between,
+    # in each surrounding; then random runs
+    basic = ['', ' ', 'a', '\\}', '{}', '*', '>b', '\n']
+    for t1 in basic:
+        for t2 in basic:
+            v1, v2 = g.unescape(t1), g.unescape(t2)
+            for mid, tag in (('', ''), ('.c', ' class="c"'), ('[a=b]', ' a="b"'), ('#i.c[a=b]', ' id="i" class="c" a="b"')):
+                fixed = [('p{%s}%s{%s}' % (t1, mid, t2), ['<p%s>' % tag, tpiece(v1), '</p>', tpiece(v2)])]
+                if not mid:
+                    fixed += [
+                        ('div>p{%s}{%s}+q' % (t1, t2), ['<div><p>', tpiece(v1), '</p>', tpiece(v2), '<q></q></div>']),
+                        ('p{%s}{%s}>i' % (t1, t2), ['<p>', tpiece(v1), '</p>', tpiece(v2), '<i></i>']),
+                        ('(p{%s}{%s})*2' % (t1, t2), ['<p>', tpiece(v1), '</p>', tpiece(v2)] * 2),
+                        ('p{%s}{%s}{%s}' % (t1, t2, t1), ['<p>', tpiece(v1), '</p>', tpiece(v2), tpiece(v1)]),
+                        ('{%s}{%s}' % (t1, t2), [tpiece(v1), tpiece(v2)]),
+                        ('p{%s}*2{%s}' % (t1, t2), ['<p>', tpiece(v1), '</p><p>', tpiece(v1), '</p>', tpiece(v2)]),
+                    ]
+                for abbr, pieces in fixed:
+                    out.append(case('runs:fixed', abbr, pieces))
+            if '\n' not in t1 + t2:
+                for abbr in ('ul>li*{%s}{%s}', 'ul>li{%s}*{%s}'):
+                    out.append(case('runs:wrap-implicit', abbr % (t1, t2),
+                                    ['<ul><li>', tpiece(v1 + 'one'), '</li><li>', tpiece(v1 + 'two'), '</li>', tpiece(v2), '</ul>'],
+                                    plain({'text': ['one', ' ', 'two ']})))
+                out.append(case('runs:wrap-plain', 'p{%s}{%s}+q' % (t1, t2), ['<p>', tpiece(v1), '</p>', tpiece(v2), '<q>L 1</q>'],
+                                plain({'text': [' L 1']})))
+    for _ in range(n):
+        name = rng.choice(g.WNAMES)
+        n_texts = rng.choice([1, 2, 2, 2, 3, 4])
+        k = rng.random()
+        if k < 0.55:
+            abbr, tag, texts, suffix = text_run(rng, name, n_texts)
+            vals = [g.unescape(t) for t in texts]
+            unit = [tag, tpiece(vals[0]), '</%s>' % name] + [tpiece(v) for v in vals[1:]]
+            last = vals[-1] if n_texts > 1 else None
+            follow = rng.choice(['', '', '+q', '>i', '>i+b', '*2', '^q'])
+            if follow == '*2' and n_texts == 1:
+                follow = '+q'
+            tail = {'': [], '+q': ['<q></q>'], '>i': ['<i></i>'], '>i+b': ['<i></i><b></b>'], '*2': [tpiece(last)], '^q': ['<q></q>']}[follow]
+            if n_texts == 1 and follow.startswith('>'):
+                unit = unit[:2] + tail + unit[2:]
+                tail = []
+            wrapper = rng.choice(['%s', '%s', 'div>%s', '(%s)+em', 'em+%s', '(%s)*2'])
+            if follow == '^q' and wrapper != 'div>%s':
+                wrapper = '%s'
+            body = unit + tail
+            if wrapper == 'div>%s':
+                pieces = ['<div>'] + body + ['</div>']
+                if follow == '^q':
+                    pieces = ['<div>'] + unit + ['</div><q></q>']
+            else:
+                pieces = {'%s': body, '(%s)+em': body + ['<em></em>'], 'em+%s': ['<em></em>'] + body, '(%s)*2': body * 2}[wrapper]
+            out.append(case('runs:%d-texts' % n_texts, wrapper % (abbr + follow), pieces))
+            ctx.cover('runs:first text ' + ('empty' if not vals[0] else 'blank' if not vals[0].strip() else 'non-empty'))
+            if n_texts > 1:
+                ctx.cover('runs:second text ' + ('empty' if not vals[1] else 'blank' if not vals[1].strip() else 'non-empty'))
+        elif k < 0.8:
+            # wrap lines, the implicit repeater on the named unit (written at any place before the second text)
+            lines = g.rand_lines(rng)
+            nb = [l.strip() for l in lines if l.strip()]
+            ph = rng.random() < 0.4
+            abbr, tag, texts, suffix = text_run(rng, name, max(n_texts, 2), breaks=False, ph=ph, star_at=rng.randint(0, 4))
+            vals = [g.unescape(t) for t in texts]
+            pieces = []
+            for l in nb:
+                pieces += [tag, tpiece(vals[0] + l + suffix), '</%s>' % name]
+            pieces += [tpiece(v) for v in vals[1:]]
+            wrapper = rng.choice(['%s', 'ul>%s', '%s+q'])
+            pieces = {'%s': pieces, 'ul>%s': ['<ul>'] + pieces + ['</ul>'], '%s+q': pieces + ['<q></q>']}[wrapper]
+            out.append(case('runs:wrap-implicit' + ('+$#' if ph else ''), wrapper % abbr, pieces, plain({'text': lines})))
+            ctx.cover('runs:wrap first text ' + ('empty' if not texts[0] else 'non-empty') + (' + `$#`' if ph else ''))
+        elif k < 0.9:
+            # the implicit repeater on the LAST text of the run: that text node is X, one copy per line
+            lines = g.rand_lines(rng)
+            nb = [l.strip() for l in lines if l.strip()]
+            abbr, tag, texts, suffix = text_run(rng, name, max(n_texts, 2), breaks=False)
+            vals = [g.unescape(t) for t in texts]
+            pieces = [tag, tpiece(vals[0]), '</%s>' % name] + [tpiece(v) for v in vals[1:-1]] + [tpiece(vals[-1] + l) for l in nb]
+            out.append(case('runs:wrap-implicit-on-text', 'div>' + abbr + '*', ['<div>'] + pieces + ['</div>'], plain({'text': lines})))
+        else:
+            # no implicit repeater: the whole text goes once into the deepest last element
+            lines = g.rand_lines(rng)
+            whole = '\n'.join(lines).strip()
+            abbr, tag, texts, suffix = text_run(rng, name, max(n_texts, 2), breaks=False)
+            vals = [g.unescape(t) for t in texts]
+            follow = rng.choice(['', '+q', '>i'])
+            if follow:
+                pieces = [tag, tpiece(vals[0]), '</%s>' % name] + [tpiece(v) for v in vals[1:]] + ['<%s>' % follow[1], tpiece(whole), '</%s>' % follow[1]]
+            else:
+                pieces = [tag, tpiece(vals[0]), '</%s>' % name] + [tpiece(v) for v in vals[1:-1]] + [tpiece(vals[-1] + whole)]
+            out.append(case('runs:wrap-plain', abbr + follow, pieces, plain({'text': lines})))
+        ctx.nontrivial(out[-1][0])
+    return out
+
+
+# ---------------------------------------------------------------- user `output.text` hooks
+# `output.text` is the documented text processor option: every piece the formatter writes is handed to it and what it
+# RETURNS is what is written (default: the piece itself).  With a hook h installed the statement reads: the characters
+# of the text reach h verbatim and in order, and the element's content is what h returned for them -- also when that
+# is the EMPTY string for a non-empty piece (a hook that deletes zero-width characters, letters, white space, or
+# everything), a longer string (escaping), or a changed one.  Hooks are named so that a replay can rebuild them; each
+# is a pure function of the piece.
+ZERO_WIDTH = '\u200b\ufeff\u00ad\u200d\u2060'     # zero width space, BOM / zero width no-break space, soft hyphen, joiner, word joiner
+HOOKS = {
+    'identity': lambda t: t,
+    'delete-everything': lambda t: '',
+    'delete-zero-width': lambda t: ''.join(c for c in t if c not in ZERO_WIDTH),
+    'delete-letters-digits': lambda t: ''.join(c for c in t if not c.isalnum()),
+    'keep-letters-digits': lambda t: ''.join(c for c in t if c.isalnum()),
+    'delete-white-space': lambda t: ''.join(c for c in t if not c.isspace()),
+    'delete-non-ascii': lambda t: ''.join(c for c in t if ord(c) < 128),
+    'escape-html': lambda t: t.replace('&', '&amp;').replace('<', '&lt;').replace('>', '&gt;'),
+    'upper-case': lambda t: t.upper(),
+    'first-character': lambda t: t[:1],
+    'bracket-each-piece': lambda t: '\u27e6' + t + '\u27e7',
+}
+HOOK_NAMES = sorted(HOOKS)
+# payloads / wrap lines made of ONE class of characters (what a class-deleting hook maps to '' as a whole)
+CLASS_CHARS = {'zero-width': list(ZERO_WIDTH), 'white space': [' ', '\t', '\xa0', '\u3000'], 'letters': list('aZ\xe9\u65e5'),
+               'digits': list('09\u0663'), 'punctuation': list('!#%&*+,-./:;<=>?@^_|~()[]'),
+               'non-ascii': list('\xe9\u65e5\u200b\ufeff\xa0')}
+
+
+def expand_hooked(abbr, cfg, hook):
+    """expand under the named hook; returns ('ok', output, calls) with calls = [('text', piece, returned) | ('field', returned)]."""
+    import copy
+    from emmet import expand
+    from markup_util import classify_exc
+    h = HOOKS[hook]
+    calls = []
+
+    def text(t, **kw):
+        r = h(t)
+        calls.append(('text', t, r))
+        return r
+
+    def field(index, placeholder, **kw):
+        calls.append(('field', placeholder))
+        return placeholder
+    uc = copy.deepcopy(cfg)
+    uc['options'] = dict(uc.get('options') or {})
+    uc['options']['output.text'] = text
+    uc['options']['output.field'] = field
+    try:
+        return ('ok', expand(abbr, uc), calls)
+    except Exception as e:  # noqa
+        return classify_exc(e)
+
+
+def hook_oracle(abbr, cfg, meta, hook, r):
+    if r[0] != 'ok':
+        return 'expand with the `output.text` hook %s did not return a string: %r' % (hook, r[:2])
+    out, calls = r[1], r[2]
+    fed = ''.join(c[1] for c in calls)
+    if not any(match_alt(p, fed) for p in [meta['pieces']] + list(meta.get('alt_pieces') or [])):
+        return ('the pieces handed to the `output.text` hook %s, %r, do not carry the text as written; expected pieces %r'
+                % (hook, fed[:300], meta['pieces'][:12]))
+    want = ''.join(c[-1] for c in calls)
+    if out != want:
+        k = next((c for c in calls if c[0] == 'text' and c[1] and not c[2]), None)
+        return ('output %r is not what the `output.text` hook %s returned, %r%s'
+                % (out[:300], hook, want[:300], ' (e.g. it returned %r for the piece %r)' % (k[2], k[1]) if k else ''))
+    return None
+
+
+def gen_hook_cases(ctx, cases, n):
+    """(abbr, cfg, meta, hook): every hook on texts / wrap lines made of one character class at each text position, then
+    random hooks on a sample of all statement-level cases generated above."""
+    rng = ctx.rng
+    out = []
+    for cls in sorted(CLASS_CHARS):
+        for ln in (1, 2, 4):
+            T = ''.join(rng.choice(CLASS_CHARS[cls]) for _ in range(ln))
+            V = g.unescape(T)
+            for hook in HOOK_NAMES:
+                for kind, abbr, pieces in shapes_text(T)[:: 1 if ln == 1 else 3]:
+                    out.append(case('hook:' + kind, abbr, pieces) + (hook,))
+                if V.strip():
+                    lines = ['one', V, '', ' ' + V + 'x ']
+                    nb = [l.strip() for l in lines if l.strip()]
+                    out.append(case('hook:wrap-implicit', 'ul>li*', ['<ul>'] + sum([['<li>', ['T', l], '</li>'] for l in nb], []) + ['</ul>'],
+                                    plain({'text': lines})) + (hook,))
+                    out.append(case('hook:wrap-implicit+$#', 'ul>li[title=$#]{$#}*',
+                                    ['<ul>'] + sum([['<li title="%s">' % l, ['T', l], '</li>'] for l in nb], []) + ['</ul>'],
+                                    plain({'text': lines})) + (hook,))
+                    out.append(case('hook:wrap-plain', 'div>p', ['<div><p>', ['T', V.strip()], '</p></div>'], plain({'text': V})) + (hook,))
+                ctx.cover('hook:text of one class: ' + cls)
+    pool = [cs for cs in cases if cs[2].get('pieces') is not None and not cs[2]['kind'].startswith(('corpus', 'indent'))
+            and cs[1].get('options') == g.PLAIN['options']]
+    for cs in rng.sample(pool, min(n, len(pool))):
+        out.append((cs[0], cs[1], dict(cs[2], kind='hook:' + cs[2]['kind'].split(':')[0]), rng.choice(HOOK_NAMES)))
+    return out
+
+
+def hook_stream(ctx, hcases):
+    for abbr, cfg, meta, hook in hcases:
+        r = expand_hooked(abbr, cfg, hook)
+        ctx.count_eval()
+        ctx.cover('hook:' + hook)
+        if r[0] == 'ok':
+            if any(c[0] == 'text' and c[1] and not c[2] for c in r[2]):
+                ctx.cover('hook:returned the empty string for a non-empty piece')
+                ctx.nontrivial(('hook', hook, abbr))
+            if any(c[0] == 'text' and len(c[2]) > len(c[1]) for c in r[2]):
+                ctx.cover('hook:returned a longer string')
+        bad = hook_oracle(abbr, cfg, meta, hook, r)
+        if bad:
+            ctx.property_failure('C04hook:%s|%s|%s' % (hook, abbr, canon_cfg(cfg)), 'C04 expand(%r, %s): %s' % (abbr, canon_cfg(cfg), bad),
+                                 {'component': 'C04-hook', 'abbr': abbr, 'config': cfg, 'meta': meta, 'hook': hook, 'why': bad})
+    ctx.cov['output_text_hook_cases'] = len(hcases)
+
+
+def replay_hook(rp):
+    r = expand_hooked(rp['abbr'], rp['config'], rp['hook'])
+    bad = hook_oracle(rp['abbr'], rp['config'], rp['meta'], rp['hook'], r)
+    print('expand(%r, %s) with the `output.text` hook %s -> %r' % (rp['abbr'], canon_cfg(rp['config']), rp['hook'], r[:2]))
+    print('property %s' % ('FAILS: ' + bad if bad else 'holds on this input'))
+    return 1 if bad else 0
+
+
 def gen_outside(ctx, n):
     """Inputs outside the statement's domain (unbalanced braces, unescaped `$`, `$#` without or outside the
     implicit repeater, several implicit repeaters, text given as one multi-line / padded string together with an
@@ -913,7 +1186,20 @@ def run(ctx):
         'balanced inner braces (text_gen.payload_nested; every item kind at depths 0..3 swept), as element text alone, repeated, '
         'under a repeated parent / group, and as an {expression} attribute value; oracle: output text = the payload with escapes '
         'resolved, inner braces kept, every counter replaced by its value in copy i of N (1 outside repeaters); plus the front-end '
-        'oracle (tokens in order, closing brace = last character, abbreviation tree per copy).')
+        'oracle (tokens in order, closing brace = last character, abbreviation tree per copy). (runs:*) RUNS OF TEXT PARTS on one unit: '
+        '`name{T1}{T2}`, `name{T1}.c#i[a=b]{T2}{T3}`, up to 4 texts, bare `{T1}{T2}`, each text EMPTY (`{}`, 40 percent), blank (space, tab, NBSP, a '
+        'lone line break) or a random payload, every combination of 8 basic first/second texts swept with and without attribute parts '
+        'between them, alone / under a parent / in a group / in a repeated group / followed by `+q` `>i` `*2` `^q`; a unit has ONE text, each '
+        'further `{...}` is a text node of its own following it: expected `<name attrs>T1</name>T2T3` whatever is empty; with wrap '
+        'lines the implicit repeater written at every place of the unit before the second text (copies of the unit, each with its line '
+        'appended to T1 or at its `$#`, T2.. once after them), on the last text of the run (one copy of that text per line), or absent '
+        '(whole text into the deepest last element, which may be the trailing text node). (hook:*) USER `output.text` HOOKS: %d named '
+        'pure functions (%s) installed as the documented text processor; texts and wrap lines made of ONE character class (zero-width '
+        'characters, white space, letters, digits, punctuation, non-ASCII) of length 1/2/4 at every text position under every hook, plus a '
+        'random hook on a sample of all statement-level cases above; oracle: the pieces handed to the hook concatenate to the output '
+        'the statement predicts (text reaches the hook verbatim) and the result is exactly the concatenation of what the hook returned, '
+        'also where that is the empty string for a non-empty piece; hooks are outside the Coq model (identity hook only): oracle only.'
+        % (len(HOOKS), ', '.join(HOOK_NAMES)))
     quick = ctx.tier == 'quick'
     cases = gen_corpus(ctx)
     cases += gen_exhaustive(ctx)
@@ -923,6 +1209,7 @@ def run(ctx):
     cases += gen_wrap_nested(ctx, 800 if quick else 12000)
     cases += gen_wrap_alias(ctx, 900 if quick else 20000)
     cases += gen_typed(ctx, 700 if quick else 25000)
+    cases += gen_text_runs(ctx, 700 if quick else 20000)
     cases += gen_outside(ctx, 1500 if quick else 30000)
     nested = gen_nested(ctx, 1200 if quick else 12000)
     cases += nested
@@ -947,6 +1234,9 @@ def run(ctx):
         if bad:
             ctx.property_failure('C04:%s|%s' % (abbr, canon_cfg(cfg)), 'C04 expand(%r, %s): %s' % (abbr, canon_cfg(cfg), bad),
                                  {'abbr': abbr, 'config': cfg, 'meta': meta, 'impl': repr(r[:2])[:500], 'why': bad})
+    # 1b. user `output.text` hooks (named pure functions, some returning '' for non-empty pieces): oracle only, the model has
+    # the identity hook
+    hook_stream(ctx, gen_hook_cases(ctx, cases, 1500 if quick else 20000))
     # 2. the same abbreviations under formatting configurations: model vs implementation (output string)
     rng = ctx.rng
     second = []
@@ -1030,6 +1320,8 @@ def replay(ctx, obj):
         return atg.replay(rp)
     if rp.get('component') == 'C04-nested':
         return replay_nested(rp)
+    if rp.get('component') == 'C04-hook':
+        return replay_hook(rp)
     if rp.get('component') == 'C04expand':
         return atg.replay_expand(rp)
     if rp.get('component') == 'C04href':
